@@ -16,8 +16,8 @@ for name in ('README.md',):
         shutil.copy(src, os.path.join(d, 'AGENT_README.md'))
 meta = {
     'property': prop,
-    'round': 2,
-    'source': 'independent sub-agent given only the property text (and a one-line note on the round-1 change to avoid) and a scratch worktree',
+    'round': int(os.environ.get('ROUND', '2')),
+    'source': 'independent sub-agent given only the property text (and a note on the changes of earlier rounds to avoid) and a scratch worktree',
     'needs_to_manifest': needs,
     'demo_files': [os.path.basename(f) for f in demos],
     'demo_place_at': demos,
